@@ -143,6 +143,7 @@ class WrappedField:
         return self.is_container and all(
             behaves_like_a_built_in_class(field_type)
             for field_type in get_args(self.resolved_type)
+            if field_type is not Ellipsis  # Tuple[X, ...]
         )
 
     @cached_property
